@@ -178,7 +178,7 @@ fn pre_for(site: Site, pos: usize) -> Vec<Pre> {
 
 pub fn run(ctx: &Ctx) -> i32 {
     let mut report = ctx.report("C20", "exploration");
-    report.rule = "all 256 result codes x 14 abort sites {commit / cancel of one transaction while another one stays open, read_card, begin (reservation), commit (partial reversal), cancel (pre-auth reversal), configure: system info / set terminal id / initialization / reversal of a dangling pre-authorisation / end-of-day, end-of-day inside commit and inside cancel, reversal of a dangling pre-authorisation inside commit} x position of the abort in the reply script {first reply, after 1, 2, 3 intermediate statuses, after a status information (for a reservation: one already carrying a receipt number), after a receipt-less status information whose own result code (BMP 27) is 05 / FC / 64 / 6C, and (end-of-day / partial-reversal / pre-auth-reversal sites) the abort in its long form carrying a receipt number 4711 / FFFF}; and every (code, site) again with a connection fault (close / garbage) at the acknowledgement of the first attempt of that exchange, so that the abort answers the client's retry; for read_card / begin / commit / cancel every one of the 256 intermediate status values in front of every code; and for read_card every code again arriving only after the terminal's own card time-out (read_card_timeout in {0,1,15,253,254,255} s plus 0.1-1.9 s, inside the client's grace period). Oracle: the call fails and the error identifies c (ZVTError::Aborted(c) in the chain, or the text contains the specification's message for c from an independently typed table, or c as a hex/decimal token); exactly three translations: read_card+6C -> NoCardPresented, reservation+FC -> NeedsPinEntry, end-of-day+A0 -> tolerated (the caller's own result stands). Duplicate-free enumeration; non-trivial = every case.".into();
+    report.rule = "all 256 result codes x 14 abort sites {commit / cancel of one transaction while another one stays open, read_card, begin (reservation), commit (partial reversal), cancel (pre-auth reversal), configure: system info / set terminal id / initialization / reversal of a dangling pre-authorisation / end-of-day, end-of-day inside commit and inside cancel, reversal of a dangling pre-authorisation inside commit} x position of the abort in the reply script {first reply, after 1, 2, 3 intermediate statuses, after a status information (for a reservation: one already carrying a receipt number), after a receipt-less status information whose own result code (BMP 27) is 05 / FC / 64 / 6C, and (end-of-day / partial-reversal / pre-auth-reversal sites) the abort in its long form carrying a receipt number 4711 / FFFF}; and every (code, site) again with a connection fault (close / garbage) at the acknowledgement of the first attempt of that exchange, so that the abort answers the client's retry; for read_card / begin / commit / cancel every one of the 256 intermediate status values in front of every code; every (code, site) at four positions with a slow terminal that takes 25 s / 40 s for every reply of the exchange (the abort arrives up to four minutes after the request); and for read_card every code again arriving only after the terminal's own card time-out (read_card_timeout in {0,1,15,253,254,255} s plus 0.1-1.9 s, inside the client's grace period). Oracle: the call fails and the error identifies c (ZVTError::Aborted(c) in the chain, or the text contains the specification's message for c from an independently typed table, or c as a hex/decimal token); exactly three translations: read_card+6C -> NoCardPresented, reservation+FC -> NeedsPinEntry, end-of-day+A0 -> tolerated (the caller's own result stands). Duplicate-free enumeration; non-trivial = every case.".into();
     report.exhaustive = Some(true);
     report.assumptions = vec!["the pending query is answered by the terminal with an abort-shaped packet by protocol design (2.10.1) and is not an abort site; aborts during the handshake are connection failures (C09)".into()];
     assert_eq!(SPEC_MESSAGES.len(), 79);
@@ -219,6 +219,24 @@ pub fn run(ctx: &Ctx) -> i32 {
             }
         }
     });
+    // a slow terminal: every packet of the aborted exchange takes 25 s / 40 s (inside the per-packet wait), so that the
+    // abort arrives one and a half to four minutes after the request - the code is still the operation's result
+    sharded(&mut report, threads, |shard, r| {
+        let mut k = 0usize;
+        for site in SITES {
+            for code in 0..=255u8 {
+                for (pos, secs) in [(0usize, 40u32), (2, 25), (3, 40), (4, 25)] {
+                    k += 1;
+                    if k % threads != shard {
+                        continue;
+                    }
+                    SLOW_S.with(|s| s.set(secs));
+                    one(r, &schema, site, code, pos, None);
+                    SLOW_S.with(|s| s.set(0));
+                }
+            }
+        }
+    });
     // read_card: the abort arrives only after the terminal's own card time-out has run out (every configured
     // time-out class incl. the largest), still inside the client's grace period
     sharded(&mut report, threads, |shard, r| {
@@ -246,6 +264,11 @@ fn one(r: &mut Report, schema: &Arc<refcodec::layout::Schema>, site: Site, code:
 thread_local! {
     /// intermediate status byte used by position 11 (see `pre_for`)
     static STATUS_BYTE: std::cell::Cell<u8> = const { std::cell::Cell::new(0) };
+}
+
+thread_local! {
+    /// seconds the terminal takes for every packet of the exchange under test (0: answers at once)
+    static SLOW_S: std::cell::Cell<u32> = const { std::cell::Cell::new(0) };
 }
 
 fn one_status(r: &mut Report, schema: &Arc<refcodec::layout::Schema>, site: Site, code: u8, status: u8) {
@@ -315,19 +338,32 @@ fn one_at(r: &mut Report, schema: &Arc<refcodec::layout::Schema>, site: Site, co
     if matches!(site, Site::ConfigureSetTerminalId) {
         // Feig::new (call 1) also tries to set the terminal id: let it pass
     }
+    let cmd = match site {
+        Site::ReadCard => Cmd::ReadCard,
+        Site::Begin => Cmd::Reservation,
+        Site::Commit | Site::CommitOtherOpen => Cmd::PartialReversal,
+        Site::Cancel | Site::CancelOtherOpen | Site::ConfigureDanglingReversal | Site::CommitDanglingReversal => Cmd::PreAuthReversal,
+        Site::ConfigureSystemInfo => Cmd::SystemInfo,
+        Site::ConfigureSetTerminalId => Cmd::SetTerminalId,
+        Site::ConfigureInitialization => Cmd::Initialization,
+        Site::ConfigureEndOfDay | Site::CommitEndOfDay | Site::CancelEndOfDay => Cmd::EndOfDay,
+    };
+    let slow = SLOW_S.with(|s| s.get());
+    if slow > 0 {
+        // a slow terminal: it takes `slow` seconds for every reply of this exchange (well inside the per-packet wait),
+        // so the abort arrives minutes after the request
+        // (the acknowledgement is not delayed: the client waits for acknowledgement + first reply as one item)
+        for reply in 1..9 {
+            sc.plan.faults.push(FaultSpec { call: call_idx, at: At::Point(cmd, reply), kind: FaultKind::Pause(slow) });
+        }
+        if site == Site::ReadCard {
+            sc.cfg.read_card_timeout = 120; // the card wait is the per-packet wait of this exchange
+        }
+        r.count("cases_with_a_slow_terminal", 1);
+    }
     if let Some(kind) = prior_fault {
         // the first attempt of the exchange suffers a connection fault at its acknowledgement; the retry is aborted.
         // every exchange plan of the call is queued twice so that the retry finds the same script.
-        let cmd = match site {
-            Site::ReadCard => Cmd::ReadCard,
-            Site::Begin => Cmd::Reservation,
-            Site::Commit | Site::CommitOtherOpen => Cmd::PartialReversal,
-            Site::Cancel | Site::CancelOtherOpen | Site::ConfigureDanglingReversal | Site::CommitDanglingReversal => Cmd::PreAuthReversal,
-            Site::ConfigureSystemInfo => Cmd::SystemInfo,
-            Site::ConfigureSetTerminalId => Cmd::SetTerminalId,
-            Site::ConfigureInitialization => Cmd::Initialization,
-            Site::ConfigureEndOfDay | Site::CommitEndOfDay | Site::CancelEndOfDay => Cmd::EndOfDay,
-        };
         if let Some(q) = sc.plan.ex.get_mut(&(call_idx, cmd)) {
             if let Some(last) = q.back().cloned() {
                 if cmd == Cmd::SystemInfo {
